@@ -23,6 +23,8 @@ type verifClientCase struct {
 	DefaultNs int64   `json:"default_ns"`
 	ParentNs  *int64  `json:"parent_ns"`
 	InvErr    int64   `json:"inv_err"`
+	PShape    string  `json:"pshape"` // shape of the caller's context (ctxshape.go, copied next to this file)
+	PreDone   bool    `json:"pre_done"` // the caller's context is already cancelled when the call is made
 }
 
 type verifClientOut struct {
@@ -53,10 +55,9 @@ func TestVerifC04(t *testing.T) {
 	for _, c := range cases {
 		out := verifClientOut{ID: c.ID}
 		tA := time.Now()
-		parent := context.Background()
-		cancel := context.CancelFunc(func() {})
-		if c.ParentNs != nil {
-			parent, cancel = context.WithDeadline(parent, tA.Add(time.Duration(*c.ParentNs)))
+		parent, cancelParent, cancel := mkParent(c.PShape, tA, c.ParentNs)
+		if c.PreDone {
+			cancelParent()
 		}
 		var opts []grpc.CallOption
 		for i := 0; i < c.Filler; i++ {
@@ -77,11 +78,20 @@ func TestVerifC04(t *testing.T) {
 				if c.InvErr != 0 {
 					return fmt.Errorf("e%d", c.InvErr)
 				}
+				if c.PreDone {
+					// what a real invoker does with a context that is done: it hands back ctx.Err()
+					return ctx.Err()
+				}
 				return nil
 			}, opts...)
+		cancelParent()
 		cancel()
 		switch {
 		case err == nil:
+		case err == context.DeadlineExceeded:
+			out.Err = -1
+		case err == context.Canceled:
+			out.Err = -2
 		case strings.HasPrefix(err.Error(), "e"):
 			out.Err, _ = strconv.ParseInt(err.Error()[1:], 10, 64)
 		default:
